@@ -451,6 +451,11 @@ func genPlan(cfg genCfg) func(rt *rapid.T) Plan {
 				r.WFR, r.Unary = chance(rt, "wfr", 40), chance(rt, "unary", 40)
 			}
 			r.NoClose = chance(rt, "noclose", 10)
+			if cfg.conn && replayMayBlock(r) {
+				// Known finding c11.retry_replay_blocks_in_flow_control_holding_cs_mu (notes/C11.md): excluded by
+				// construction, otherwise the frozen bubble ends the shard. Unary calls keep the large sizes.
+				r.Bytes = 20000
+			}
 			p.RPCs = append(p.RPCs, r)
 		}
 		// The server's preface SETTINGS. Values that keep the client from ever
